@@ -12,6 +12,13 @@ const ATTR = Object.assign({}, Object.fromEntries(E.ALL_ATTRS.map((k) => [k, E.A
   'v-slots': 'v-slots={{ foo: h2 }}', 'v-slots-id': 'v-slots={vsl}',
 });
 const ATTR_KEYS = Object.keys(ATTR);
+// listener objects (transformOn) and what may stand on either side of them; `idB` repeats the name of `id`
+const LISTENERS = {
+  onOne: 'on={{ click: h3 }}', onTwo: "on={{ click: h3, 'update:x': h1 }}", onDup: 'on={{ click: h1, click: h2 }}', onShort: 'on={{ h1, foo: h2 }}', onIdent: 'on={s1}', onSpread: 'on={{ ...s1, click: h3 }}',
+  onMethod: 'on={{ click() { return 1; } }}', nativeOne: 'nativeOn={{ foo: h4 }}', nativeDup: "nativeOn={{ foo: h4, 'foo': h1 }}",
+};
+const BESIDE = { none: null, id: ATTR.id, idB: 'id="b"', onClick1: ATTR.onClick1, clsS: ATTR.clsS, sp1: ATTR.sp1, titleDyn: 'title={x}' };
+const ATTR2 = Object.assign({}, LISTENERS, BESIDE);
 // children events for element and component hosts alike
 const CHILD = {
   text: 'a', bx: '{x}', ux: '{u}', call: '{f()}', el: '<b/>', frag: '<>{x}</>', comp: '<B>{x}</B>', compEl: '<B><i/></B>', compText: '<B>t</B>',
@@ -56,6 +63,15 @@ function spaces(tier) {
       },
     },
     {
+      name: 'T:listener-objects',
+      bounds: { hosts: ['div', 'Comp', 'input'], listeners: Object.keys(LISTENERS), before: Object.keys(BESIDE), after: Object.keys(BESIDE), options: 'transformOn=true × mergeProps', note: 'an on/nativeOn object between two other attributes, which may repeat a name' },
+      *gen() {
+        for (const host of ['div', 'Comp', 'input']) for (const l of Object.keys(LISTENERS)) for (const b of Object.keys(BESIDE)) for (const a of Object.keys(BESIDE)) for (const mergeProps of [true, false]) {
+          yield { sp: 'E', host, at: [b, l, a].filter((k) => k !== 'none'), ch: [], o: { mergeProps, transformOn: true, enableObjectSlots: true } };
+        }
+      },
+    },
+    {
       name: 'H:statement-histories',
       bounds: { statements: STMT_KEYS, max_length: thorough ? 4 : 3, note: 'several JSX statements per module: a hint-state leak in an earlier statement must not change what a later one renders' },
       *gen() { for (const seq of sequences(STMT_KEYS.length, thorough ? 4 : 3, { minLen: 1 })) yield { sp: 'H', st: seq.map((i) => STMT_KEYS[i]), o: OTHER_OPTS[0] }; },
@@ -65,7 +81,7 @@ function spaces(tier) {
 
 function render(c) {
   if (c.sp === 'H') return PRELUDE + c.st.map((k, i) => (typeof STMT[k] === 'function' ? STMT[k](i) : `__out.k${i} = () => (${STMT[k]});`)).join('\n') + '\n';
-  const jsx = E.renderJsx(c.host, c.at.map((k) => ATTR[k]), c.ch.map((k) => CHILD[k]));
+  const jsx = E.renderJsx(c.host, c.at.map((k) => ATTR[k] || ATTR2[k]), c.ch.map((k) => CHILD[k]));
   return (E.HOSTS[c.host].imports ? E.HOSTS[c.host].imports + '\n' : '') + PRELUDE + `__out.k0 = () => (${jsx});\n`;
 }
 
